@@ -122,9 +122,16 @@ func (m *NonInterference) AfterScan(ctx *h.ScanCtx) []h.Violation {
 		// only the documented not-in-group condition may stop the loop; any other error returned by
 		// the scan means a failure inside one group kept later groups from being processed
 		if err := ctx.Res.Err; err != nil {
-			if _, ok := err.(*cloudprovider.NodeNotInNodeGroup); !ok {
+			nn, ok := err.(*cloudprovider.NodeNotInNodeGroup)
+			if !ok {
 				return []h.Violation{{Prop: "C12", Sig: "C12/failure-not-contained/scan-aborted",
 					Msg: fmt.Sprintf("scan %d: the scan returned %q and stopped processing node groups", ctx.Scan, err.Error())}}
+			}
+			// a cloud group that began the scan at (or below) its minimum refuses every removal with an
+			// ordinary error before it looks at membership; the fatal stop cannot come from it
+			if g := ctx.GroupOfASG(nn.NodeGroup); g != nil && g.CloudDesired <= g.CloudMin {
+				return []h.Violation{{Prop: "C12", Sig: "C12/failure-not-contained/minimum-refusal-became-fatal",
+					Msg: fmt.Sprintf("scan %d: cloud group %s began the scan with desired %d <= minimum %d, so its removal request is refused with the ordinary minimum-size error; instead the scan stopped with %q and later groups were not processed", ctx.Scan, nn.NodeGroup, g.CloudDesired, g.CloudMin, err.Error())}}
 			}
 		}
 		if ctx.Res.Panic != nil {
@@ -189,6 +196,21 @@ func C12Scenarios(tier string) []*h.Scenario {
 		s.Events = func(hh *h.Hist, slot int) []h.Event {
 			ev := append(fixedNodeEvents(a, names), evDescInsDown())
 			// pods of a that mention b's label value only in a NotIn expression (they select a by node selector)
+			// the Kubernetes node of an instance that is no longer in a's ASG lingers, tainted and past its
+			// grace period, while the ASG sits at its minimum: removal is refused ("min sized reached"),
+			// an ordinary error that must not keep later groups from being processed
+			ev = append(ev, h.Event{Label: "lingering-node(a)+asg-at-minimum", Apply: func(hh *h.Hist) {
+				other := hh.W.FindASG("asg-other-a")
+				if other == nil {
+					other = hh.W.AddASG(sim.ASG{Name: "asg-other-a", Min: 0, Max: 5, LabelKey: a.Opts.LabelKey, LabelValue: a.Opts.LabelValue})
+				}
+				if len(other.Instances) == 0 {
+					hh.W.AddNode(other, sim.NodeOpt{Age: 50 * Q, TaintAge: dp(5 * Q)})
+				}
+				if as := hh.W.FindASG(a.ASG.Name); as != nil {
+					as.Min = as.Desired
+				}
+			}})
 			ev = append(ev, h.Event{Label: "burst(a, affinity NotIn b)", Apply: func(hh *h.Hist) {
 				for i := 0; i < 3; i++ {
 					o := affinityPod(other, "", 1500, true)
@@ -304,7 +326,39 @@ func C12Scenarios(tier string) []*h.Scenario {
 		}
 		return s
 	}
+	// group a selects by a label key in a reserved Kubernetes domain; the default group must not pick up a's pods
+	reserved := func() *h.Scenario {
+		s := mk("c12.reserved-key-default", []string{"a", "default"})
+		for i := range s.Groups {
+			if s.Groups[i].Opts.Name == "a" {
+				s.Groups[i].Opts.LabelKey = "kops.k8s.io/instancegroup"
+				s.Groups[i].ASG.LabelKey = "kops.k8s.io/instancegroup"
+			}
+		}
+		ga := s.Groups[0]
+		names := initialNames(ga.ASG.Name, 5)
+		s.Events = func(hh *h.Hist, slot int) []h.Event { return fixedNodeEvents(ga, names) }
+		inner := s.Init
+		groups := s.Groups
+		s.Init = func(hh *h.Hist) {
+			// mk's Init builds the worlds from the group specs captured at construction; rebuild a's part with the new key
+			inner(hh)
+			for _, n := range hh.W.Nodes {
+				if v, ok := n.Labels["customer"]; ok && v == "a" {
+					delete(n.Labels, "customer")
+					n.Labels["kops.k8s.io/instancegroup"] = "a"
+				}
+			}
+			for _, p := range hh.W.Pods {
+				if v, ok := p.Spec.NodeSelector["customer"]; ok && v == "a" {
+					p.Spec.NodeSelector = sel(groups[0])
+				}
+			}
+		}
+		return s
+	}
 	return []*h.Scenario{
+		reserved(),
 		fleet(),
 		empty("c12.a-emptyb", []string{"a", "b"}),
 		mk("c12.a-b", []string{"a", "b"}),
@@ -335,6 +389,6 @@ func init() {
 		},
 		Nontrivial:  seenKeys,
 		Assumptions: append([]string{"group a scales with SetDesiredCapacity (zero virtual time); a fleet attach in a takes 1-3 virtual seconds, which legitimately moves b's reaper clock and is not interference"}, commonAssumptions...),
-		Alphabet:    []string{"pod-start/finish(a.i)", "cordon(a.i)", "force-taint(a.i)", "ext-taint(a.i, now-5q)", "burst(a)", "clear-pods(a)", "ec2-describe-instances-down", "register-node(a, odd size)", "resize-first-node(a)", "fail at any k8s/AWS call or lister while a is processed"},
+		Alphabet:    []string{"pod-start/finish(a.i)", "cordon(a.i)", "force-taint(a.i)", "ext-taint(a.i, now-5q)", "burst(a)", "clear-pods(a)", "ec2-describe-instances-down", "register-node(a, odd size)", "resize-first-node(a)", "lingering-node(a)+asg-at-minimum", "fail at any k8s/AWS call or lister while a is processed"},
 	})
 }
